@@ -11,4 +11,12 @@ TIER="${2:-quick}"
 if [ ! -x bin/origamilint ] || [ -n "$(find lint -name '*.go' -newer bin/origamilint 2>/dev/null | head -1)" ]; then
   ./setup.sh >/dev/null 2>&1 || { echo "CHECKER-ERROR: cannot build the checker"; ./setup.sh; exit 2; }
 fi
-exec ./bin/origamilint -prop "$PROP" -tier "$TIER" -repo "${VERIF_REPO:-/repo}" -verif "$(pwd)"
+./bin/origamilint -prop "$PROP" -tier "$TIER" -repo "${VERIF_REPO:-/repo}" -verif "$(pwd)"
+rc=$?
+# thorough = the same decision plus the checker's sensitivity run: every recorded single-edit
+# variant of the current tree (source overlay, no copy) must make its rule report
+if [ "$TIER" = "thorough" ] && [ "$rc" -eq 0 ] && [ "$PROP" != "all" ]; then
+  python3 tools/selftest.py "$PROP" "${VERIF_REPO:-/repo}"
+  rc=$?
+fi
+exit $rc
